@@ -144,7 +144,7 @@ func HarnessC12Unpack() {
 
 func c12AllThere(entries []envTarEntry) bool {
 	for _, e := range entries {
-		if e.Name == "" {
+		if e.Name == "" || e.Typeflag == tar.TypeXGlobalHeader { // (nothing is materialised for a PAX header record)
 			continue
 		}
 		if envLstatKind(refJoinAbs(refPush(refPush(nil, unpackDstReal), e.Name))) == -1 {
